@@ -30,6 +30,7 @@ theorem c08_old_tls_stall_blocks_listener : (run stepOld {} [.tlsStall]).serves 
 theorem c08_old_replay_then_any_datagram_ends_udp : (run stepOld {} [.udpReplay, .udpGarbage]).serves = false := by decide
 theorem c08_old_local_datagram_wedges_client : (run stepOld {} [.localUdpGarbage]).serves = false := by decide
 theorem c08_old_unreachable_server_ends_client_udp : (run stepOld {} [.outboundFail]).serves = false := by decide
+theorem c08_old_stalled_binding_blocks_client_udp : (run stepOld {} [.bindingStall]).serves = false := by decide
 theorem c08_old_flood_deadlocks_udp_loop : (run stepOld {} [.udpFlood]).serves = false := by decide
 theorem c08_old_silent_resolver_blocks_workers : (run stepOld {} [.resolverStall]).serves = false := by decide
 
